@@ -888,18 +888,21 @@ impl<const N: usize, T> CircularBuffer<N, T> {
     }
 
     #[inline]
-    unsafe fn drop_range(&mut self, range: Range<usize>) {
+    unsafe fn drop_range(&mut self, start: usize, size: usize, range: Range<usize>) {
+        // `start` and `size` describe the buffer as it was before the caller removed `range` from
+        // it: the caller must shrink the buffer *before* calling this method, so that no element
+        // is dropped twice if one of the destructors panics.
         if range.is_empty() {
             return;
         }
 
-        debug_assert!(self.start < N, "start out-of-bounds");
-        debug_assert!(self.size <= N, "size out-of-bounds");
-        debug_assert!(range.start < self.size, "start of range out-of-bounds");
-        debug_assert!(range.end <= self.size, "end of range out-of-bounds");
+        debug_assert!(start < N, "start out-of-bounds");
+        debug_assert!(size <= N, "size out-of-bounds");
+        debug_assert!(range.start < size, "start of range out-of-bounds");
+        debug_assert!(range.end <= size, "end of range out-of-bounds");
         debug_assert!(range.start < range.end, "start of range is past its end");
         debug_assert!(
-            range.start == 0 || range.end == self.size,
+            range.start == 0 || range.end == size,
             "range does not include boundary of the buffer"
         );
 
@@ -918,8 +921,8 @@ impl<const N: usize, T> CircularBuffer<N, T> {
             }
         }
 
-        let drop_from = add_mod(self.start, range.start, N);
-        let drop_to = add_mod(self.start, range.end, N);
+        let drop_from = add_mod(start, range.start, N);
+        let drop_to = add_mod(start, range.end, N);
 
         let (right, left) = if drop_from < drop_to {
             (&mut self.items[drop_from..drop_to], &mut [][..])
@@ -1829,12 +1832,13 @@ impl<const N: usize, T> CircularBuffer<N, T> {
             return;
         }
 
-        let drop_range = len..self.size;
+        let (start, size) = (self.start, self.size);
+        let drop_range = len..size;
+        self.size = len;
         // SAFETY: `drop_range` is a valid range, so elements within are guaranteed to be
         // initialized. The `size` of the buffer is shrunk before dropping, so no value will be
         // dropped twice in case of panics.
-        unsafe { self.drop_range(drop_range) };
-        self.size = len;
+        unsafe { self.drop_range(start, size, drop_range) };
     }
 
     /// Shortens the buffer, keeping only the back `len` elements and dropping the rest.
@@ -1863,14 +1867,15 @@ impl<const N: usize, T> CircularBuffer<N, T> {
             return;
         }
 
-        let drop_len = self.size - len;
+        let (start, size) = (self.start, self.size);
+        let drop_len = size - len;
         let drop_range = 0..drop_len;
+        self.start = add_mod(start, drop_len, N);
+        self.size = len;
         // SAFETY: `drop_range` is a valid range, so elements within are guaranteed to be
         // initialized. The `start` of the buffer is shrunk before dropping, so no value will be
         // dropped twice in case of panics.
-        unsafe { self.drop_range(drop_range) };
-        self.start = add_mod(self.start, drop_len, N);
-        self.size = len;
+        unsafe { self.drop_range(start, size, drop_range) };
     }
 
     /// Drops all the elements in the buffer.
